@@ -32,6 +32,28 @@ pub enum Hist {
     /// the stop flag is set while a long streaming reply is in flight; one further client arrives
     /// while it is still in flight, well after any reading of "shortly"
     LateClientsDuringStream,
+    /// no connection at all, but the thread inside listen() receives handled signals (SIGUSR1, no-op
+    /// handler, no SA_RESTART) while it waits: an interrupted wait is neither a connection nor an
+    /// elapsed wait - the idle period and the stop flag must be honoured exactly as without signals
+    SignalsWhileWaiting,
+}
+
+extern "C" fn noop_handler(_: libc::c_int) {}
+
+fn signal_listen_thread(server: &Server) -> bool {
+    static INSTALL: std::sync::Once = std::sync::Once::new();
+    INSTALL.call_once(|| unsafe {
+        let mut sa: libc::sigaction = std::mem::zeroed();
+        sa.sa_sigaction = noop_handler as extern "C" fn(libc::c_int) as usize;
+        sa.sa_flags = 0; // no SA_RESTART: the interrupted call fails with EINTR
+        libc::sigemptyset(&mut sa.sa_mask);
+        libc::sigaction(libc::SIGUSR1, &sa, std::ptr::null_mut());
+    });
+    let t = server.tid.load(Ordering::SeqCst);
+    if t == 0 || server.handle.as_ref().map(|h| h.is_finished()).unwrap_or(true) {
+        return false;
+    }
+    unsafe { libc::pthread_kill(t as libc::pthread_t, libc::SIGUSR1) == 0 }
 }
 
 #[derive(Clone, Copy, Debug, PartialEq, Eq, Hash)]
@@ -141,6 +163,20 @@ fn run_scn(s: &Scn) -> Result<Obs, String> {
                 sleep_until(t0, 300 + s.jitter);
                 set_flag(&server, &mut obs);
             }
+        }
+        Hist::SignalsWhileWaiting => {
+            let mut sent = 0;
+            for (k, at) in [150u64, 350, 550, 750].iter().enumerate() {
+                if k == 2 && s.flag == FlagPlan::During {
+                    sleep_until(t0, 450 + s.jitter % 90);
+                    set_flag(&server, &mut obs);
+                }
+                sleep_until(t0, *at);
+                if signal_listen_thread(&server) {
+                    sent += 1;
+                }
+            }
+            obs.notes.push(format!("{} signals delivered to the listen thread", sent));
         }
         Hist::LateArrival => {
             // a connection arriving shortly before the first deadline
@@ -379,6 +415,18 @@ fn run_scn(s: &Scn) -> Result<Obs, String> {
             while !h.is_finished() && t.elapsed() < Duration::from_secs(10) {
                 std::thread::sleep(Duration::from_millis(20));
             }
+            if !h.is_finished() {
+                // an acceptor blocked in accept() sees the flag only after a further connection: release
+                // the thread (it is reported as late either way)
+                if let Ok(c) = RawConn::connect(&address) {
+                    obs.notes.push("listen() returned only after a further connection arrived".into());
+                    drop(c);
+                }
+                let t = Instant::now();
+                while !h.is_finished() && t.elapsed() < Duration::from_secs(3) {
+                    std::thread::sleep(Duration::from_millis(20));
+                }
+            }
             break;
         }
         std::thread::sleep(Duration::from_millis(2));
@@ -473,7 +521,7 @@ pub fn scenarios(tier: Tier, seed: u64) -> Vec<Scn> {
     for idle in [0u64, 1, 2] {
         for flag in [FlagPlan::NoFlag, FlagPlan::Before, FlagPlan::During, FlagPlan::Never] {
             for (pi, pool) in pools.iter().enumerate() {
-                for hist in [Hist::NoConn, Hist::LateArrival, Hist::LongLived, Hist::CloseAtDeadline, Hist::StreamInFlight, Hist::QueuedAtStop, Hist::Churn, Hist::HandlerPanic, Hist::LateClientsDuringStream] {
+                for hist in [Hist::NoConn, Hist::LateArrival, Hist::LongLived, Hist::CloseAtDeadline, Hist::StreamInFlight, Hist::QueuedAtStop, Hist::Churn, Hist::HandlerPanic, Hist::LateClientsDuringStream, Hist::SignalsWhileWaiting] {
                     // combinations that can never return or make no sense
                     if hist == Hist::LateClientsDuringStream && (flag != FlagPlan::During || (tier == Tier::Quick && pi != (idle as usize % 3))) {
                         continue;
@@ -501,6 +549,9 @@ pub fn scenarios(tier: Tier, seed: u64) -> Vec<Scn> {
                         continue;
                     }
                     if tier == Tier::Quick && hist == Hist::Churn && pi != (idle as usize % 3) {
+                        continue;
+                    }
+                    if tier == Tier::Quick && hist == Hist::SignalsWhileWaiting && pi != (idle as usize % 3) {
                         continue;
                     }
                     if hist == Hist::LongLived && idle == 2 && tier == Tier::Quick {
@@ -701,7 +752,7 @@ pub fn replay(ctx: &Ctx, w: &Value) {
         Some("Never") => FlagPlan::Never,
         _ => FlagPlan::NoFlag,
     };
-    let hist = [Hist::NoConn, Hist::LateArrival, Hist::LongLived, Hist::CloseAtDeadline, Hist::StreamInFlight, Hist::QueuedAtStop, Hist::Churn, Hist::HandlerPanic, Hist::LateClientsDuringStream].into_iter().find(|h| Some(format!("{:?}", h).as_str()) == j["hist"].as_str()).unwrap_or(Hist::NoConn);
+    let hist = [Hist::NoConn, Hist::LateArrival, Hist::LongLived, Hist::CloseAtDeadline, Hist::StreamInFlight, Hist::QueuedAtStop, Hist::Churn, Hist::HandlerPanic, Hist::LateClientsDuringStream, Hist::SignalsWhileWaiting].into_iter().find(|h| Some(format!("{:?}", h).as_str()) == j["hist"].as_str()).unwrap_or(Hist::NoConn);
     let s = Scn { idle: j["idle"].as_u64().unwrap_or(0), flag, pool: (j["pool"][0].as_u64().unwrap_or(1) as usize, j["pool"][1].as_u64().unwrap_or(1) as usize), hist, jitter: j["jitter"].as_u64().unwrap_or(0) };
     match run_scn(&s) {
         Ok(o) => {
